@@ -802,6 +802,32 @@ func runC19(cx *CheckCtx) {
 			cx.decide(okChk, "withdraw", "neofs.Withdraw/checked", "the notification is reachable only if every executed fee transfer returned true", "a failed fee transfer does not abort the withdrawal request", nt.Where(w))
 			// exclusive: notary ⇒ only processing; else only alphabet loop
 			st := nt.In
+			// converse: a request is refused only without the user's witness, outside [0, 9000] or
+			// when a fee transfer failed
+			okAcc, nAcc := true, 0
+			reasons := []int32{a.litLtC(amt, 0), -a.litLtC(amt, 9001), -a.litW(user)}
+			for _, s := range tr {
+				if s.Val != nil {
+					reasons = append(reasons, -a.litB(s.Val))
+				}
+			}
+			for k := range a.in {
+				if k.idx != 0 {
+					continue
+				}
+				if _, isPanic := k.b.Instrs[len(k.b.Instrs)-1].(*ssa.Panic); !isPanic {
+					continue
+				}
+				for _, p := range k.b.Preds {
+					if st2 := a.edgeState(k.ctx, p, k.b); st2 != nil {
+						nAcc++
+						if !a.holdsAt(st2, reasons...) {
+							okAcc = false
+						}
+					}
+				}
+			}
+			cx.decide(okAcc && nAcc > 0, "withdraw", "neofs.Withdraw/accepts", "faults only without W(user), outside 0 ≤ amount ≤ 9000 or after a failed fee transfer", "a witnessed withdrawal request inside [0, 9000] can be refused", nt.Where(w))
 			cx.decide(a.holdsAt(st, -a.litLtC(amt, 0)) && a.holdsAt(st, a.litLtC(amt, 9001)) && a.holdsAt(st, a.litW(user)), "withdraw", "neofs.Withdraw/bounds", "W(user) ∧ 0 ≤ amount ≤ 9000 established", "a withdrawal outside [0, 9000] or without the user's witness is announced", nt.Where(w))
 			args := notifyArgs(nt)
 			okA := len(args) == 3 && args[0] == user && args[1] == tb.binop(token.MUL, amt, tb.constInt(100000000), intType)
@@ -874,6 +900,14 @@ func runC19(cx *CheckCtx) {
 			marker, _ := t.Args[3].BytesConst()
 			okT := t.Args[0] == tb.mk("call", "contract.CreateStandardAccount", 0, key) && isCall(t.Args[1], "runtime.GetExecutingScriptHash") && fk == "configInnerRingCandidateFee"
 			cx.decide(okT && a.holdsAt(t.In, a.litW(key)), "candidate-fee", "neofs.InnerRingCandidateAdd/transfer", "configured fee from the standard account of the witnessed key to the contract", "the candidate fee is "+termList(t.Args[:3]), t.Where(w))
+			// the fee is charged once per candidate: only a key that is not stored yet is charged and stored
+			okNew := false
+			for _, f := range a.unitFactsRaw(t.In) {
+				if f.kind == KNil && f.pos && f.A.Op == "read" && len(f.A.Args) > 0 && f.A.Args[0] == put.Args[1] {
+					okNew = true
+				}
+			}
+			cx.decide(okNew && executedAtEveryExit(a, t, put), "candidate-fee", "neofs.InnerRingCandidateAdd/once", "charged and stored only for a key that is not a candidate yet, and then always", "a key that already is a candidate can be charged again (or a new one is refused / not stored)", t.Where(w))
 			cx.decide(resultChecked(a, t, put), "candidate-fee", "neofs.InnerRingCandidateAdd/checked", "the candidate is stored only if the fee transfer returned true", "a candidate is registered although the fee was not paid", put.Where(w))
 			// the marker is what OnNEP17Payment compares against
 			okM := false
